@@ -152,10 +152,10 @@ impl Line {
     }
 }
 
-fn getlog<'a>(log: &'a [(String, Value)], key: &str) -> Option<&'a Value> {
+pub(crate) fn getlog<'a>(log: &'a [(String, Value)], key: &str) -> Option<&'a Value> {
     log.iter().find(|(k, _)| k == key).map(|(_, v)| v)
 }
-fn vf(v: &Value) -> Vec<f64> {
+pub(crate) fn vf(v: &Value) -> Vec<f64> {
     arr(v).iter().map(|x| x.as_f64().unwrap_or(f64::NAN)).collect()
 }
 
@@ -171,7 +171,7 @@ pub fn order_of(xun: &[f64]) -> Option<Vec<usize>> {
     Some(idx)
 }
 
-fn inv_f64(a: &[Vec<f64>]) -> Option<Vec<Vec<f64>>> {
+pub(crate) fn inv_f64(a: &[Vec<f64>]) -> Option<Vec<Vec<f64>>> {
     let n = a.len();
     let mut m: Vec<Vec<f64>> = a.iter().enumerate().map(|(i, r)| { let mut r = r.clone(); r.extend((0..n).map(|j| if i == j { 1.0 } else { 0.0 })); r }).collect();
     for c in 0..n {
@@ -190,7 +190,7 @@ fn inv_f64(a: &[Vec<f64>]) -> Option<Vec<Vec<f64>>> {
     }
     Some(m.into_iter().map(|r| r[n..].to_vec()).collect())
 }
-fn norm1(a: &[Vec<f64>]) -> f64 {
+pub(crate) fn norm1(a: &[Vec<f64>]) -> f64 {
     let n = a.len();
     (0..n).map(|j| (0..n).map(|i| a[i][j].abs()).sum::<f64>()).fold(0.0, f64::max)
 }
@@ -209,7 +209,7 @@ pub struct Point {
     pub want_order: Option<Vec<usize>>, // order the steering aims at (None: not steered)
 }
 
-fn make_point(line: &Line, dim: usize, order: Option<&[usize]>, rng: &mut impl Rng, extreme: u32) -> Point {
+pub(crate) fn make_point(line: &Line, dim: usize, order: Option<&[usize]>, rng: &mut impl Rng, extreme: u32) -> Point {
     let e = line.e;
     let mut x = vec![0.0; dim];
     // extreme >= 100: a "spread" point - at one step the parameters drop by 10^-(extreme-100), so that L has a
